@@ -36,6 +36,21 @@ static void check_lookup(const Grid& g, const std::vector<double>& x, double xi,
   CHECK(x[i] <= xi && xi <= x[i + 1], fmt("C17|Get_i|not-bracketing|%s", pow2(nx - 1) ? "pow2" : "nonpow2"), "x=%.17g -> i=%u but x[i]=%.17g x[i+1]=%.17g (nx=%u) :: %s", xi, i, x[i], x[i + 1], nx, ctx.c_str());
 }
 
+// the ends the caller asked for are positions of the grid: Get_i(a) is the first interval, Get_i(b) the last one, and the
+// neighbours just outside [a,b] are rejected (statement: "For a<=x<=b ... the last interval for x=b ... outside [a,b] it raises an error")
+static void check_requested_ends(const Grid& g, const std::vector<double>& x, double a, double b, const std::string& ctx) {
+  unsigned nx = (unsigned)x.size();
+  for (int e = 0; e < 2; e++) {
+    double xi = e ? b : a; bool threw = false; unsigned i = 0;
+    try { i = g.Get_i(xi); } catch (const std::exception&) { threw = true; }
+    CHECK(!threw, e ? "C17|Get_i|requested-end-b-rejected" : "C17|Get_i|requested-end-a-rejected", "Get_i(%.17g) raised; nodes run %.17g .. %.17g :: %s", xi, x.front(), x.back(), ctx.c_str());
+    CHECK(i <= nx - 2 && x[i] <= xi && xi <= x[i + 1], "C17|Get_i|requested-end-not-bracketed", "Get_i(%.17g)=%u x[i]=%.17g x[i+1]=%.17g :: %s", xi, i, x[i], x[i + 1], ctx.c_str());
+    if (e) CHECK(i == nx - 2, "C17|Get_i|b-not-in-last-interval", "Get_i(b=%.17g)=%u nx=%u :: %s", xi, i, nx, ctx.c_str());
+    double out = ByteSource::ulp_step(xi, e ? 1 : -1); threw = false;
+    try { i = g.Get_i(out); } catch (const std::exception&) { threw = true; }
+    CHECK(threw, "C17|Get_i|outside-requested-range-not-rejected", "Get_i(%.17g) = %u although the range is [%.17g,%.17g] :: %s", out, i, a, b, ctx.c_str());
+  }
+}
 static void check_grid_and_lookups(ByteSource& s, CaseInfo& ci, Grid& g, const std::vector<double>& x, const std::string& ctx, bool all_nodes) {
   unsigned nx = (unsigned)x.size();
   for (unsigned k = 0; k + 1 < nx; k++) CHECK(x[k] <= x[k + 1], "C17|grid|not-monotone", "x[%u]=%.17g > x[%u]=%.17g :: %s", k, x[k], k + 1, x[k + 1], ctx.c_str());
@@ -66,7 +81,7 @@ static void check_grid_and_lookups(ByteSource& s, CaseInfo& ci, Grid& g, const s
       case 6: xi = x.back(); break;
       case 7: xi = s.flag() ? ByteSource::ulp_step(x.back(), 1) : ByteSource::ulp_step(x.front(), -1); break;
       case 8: xi = s.flag() ? x.back() + (fabs(x.back()) + 1) * 10 : x.front() - (fabs(x.front()) + 1) * 10; break;
-      default: xi = s.flag() ? INFINITY : -INFINITY; break;
+      default: { unsigned w = s.choose(3); xi = w == 0 ? INFINITY : w == 1 ? -INFINITY : std::nan(""); if (w == 2) ci.label("x-nan"); break; }  // a NaN lies in no interval: rejected
     }
     ci.label(names[xc]);
     if (xc <= 2) ci.nontrivial = true;
@@ -142,6 +157,7 @@ void run_case(ByteSource& s, CaseInfo& ci) {
       ci.ratio("linear-spacing", (double)(err / (16 * EPS * sc + TINY)));
       CHECK(err <= 16 * EPS * sc + TINY, "C17|grid-linear|not-equally-spaced", "node %u = %.17g ideal %.17Lg :: %s", k, x[k], ideal, ctx.c_str());
     }
+    check_requested_ends(g, x, a, b, ctx);
   } else if (kind == 1) {
     unsigned rc = s.choose(4);
     double a, b;
@@ -168,6 +184,7 @@ void run_case(ByteSource& s, CaseInfo& ci) {
       ci.ratio("log-spacing", (double)(err / tol));
       CHECK(err <= tol, "C17|grid-log|not-equally-spaced-in-log", "node %u = %.17g log=%.17Lg ideal %.17Lg :: %s", k, x[k], logl((ld)x[k]), ideal, ctx.c_str());
     }
+    check_requested_ends(g, x, a, b, ctx);
     ci.nontrivial = true;  // a geometric grid is non-uniform for the value-midpoint bisection
   } else {
     unsigned uk = s.choose(4);
@@ -219,4 +236,10 @@ void regressions() {
     std::vector<double> x = g.Get_xrange();
     for (unsigned k = 0; k < nx; k++) { check_lookup(g, x, x[k], "regression", ci); check_lookup(g, x, ByteSource::ulp_step(x[k], 1), "regression", ci); check_lookup(g, x, ByteSource::ulp_step(x[k], -1), "regression", ci); }
   }
+  // 141ca22: the requested ends are positions of the grid (linear [0,0.7] nx=4 ended at 0.69999999999999984; log [3,5] nx=3 started above 3)
+  { Grid g(4); g.Set_xrange(0.0, 0.7, "linear"); check_requested_ends(g, g.Get_xrange(), 0.0, 0.7, "regression linear [0,0.7] nx=4"); }
+  { Grid g(3); g.Set_xrange(3.0, 5.0, "log"); check_requested_ends(g, g.Get_xrange(), 3.0, 5.0, "regression log [3,5] nx=3"); }
+  { Grid g(2); g.Set_xrange(1.0, 1000.0, "log"); check_requested_ends(g, g.Get_xrange(), 1.0, 1000.0, "regression log [1,1000] nx=2"); }
+  // ea43bba: a NaN position is rejected
+  { Grid g(5); g.Set_xrange(0.0, 1.0, "linear"); check_lookup(g, g.Get_xrange(), std::nan(""), "regression NaN", ci); }
 }
